@@ -4,9 +4,9 @@ from vv.registry import PROPS, COMMON_ASSUME, rc, py
 harness("h_c12", ["harness/h_c12.cc"], libs=("csg",))
 
 PROPS["C12"] = dict(
-    parts=[rc("h_c12", quick=dict(cases=30000, procs=4, budget_s=600),
+    parts=[rc("h_c12", quick=dict(cases=80000, procs=4, budget_s=600),
               thorough=dict(cases=1600000, procs=16, budget_s=3000)),
-           py("vv.exe_c12", quick=dict(cases=480, procs=8, budget_s=600),
+           py("vv.exe_c12", quick=dict(cases=960, procs=8, budget_s=600),
               thorough=dict(cases=16000, procs=16, budget_s=3000))],
     rule=("h_c12 (library, rapidcheck): grids of 2..300 points (60 % <= 12, 30 % <= 60), uniform (binary / decimal steps), mildly non-uniform "
           "(neighbour ratio <= 4), strongly non-uniform (interval lengths over three decades) and clustered, offsets -100..100; ordinates from "
